@@ -2326,10 +2326,46 @@ def check_c18(rep, tier, seed, wd, replay):
         if (gres, g["writes"]) != (mres, m["writes"]):
             nd += 1
             rep.add_violation("correspondence", "case %s: db3 conversion: impl %s (%d bytes) model %s (%d bytes)" % (c["id"], gres, len(b"".join(g["writes"])), mres, len(b"".join(m["writes"]))), rp, failing_input=bool(probs))
-    cov = summarize(rep, len(cases) + len(dbcases), len(set(c["bag"] for c in cases)) + len(dbcases),
-                    "generated SQLite databases (with/without the QoS column, equal timestamps, topics without messages, non-message topic types with messages) converted with DB3ToMCAP against a generated ament index; rows as the engine returns them and the assembled schemas are logged and fed to the db3+writer model; schema assembly compared with an independent implementation. generated ROS 1 bags (1-5 connections incl. ids 0 and 65535, repeated connection records, shared and distinct types/md5, empty and 300-byte messages, times up to 2^32-1 s, chunks none/lz4/bz2 or unchunked records) converted under random MCAP writer options; corruptions of valid bags (bad/short magic, truncation, hostile header and field lengths, byte noise) and hand-made hostile records, each conversion in an isolated child; output bytes compared with the bag+writer model; oracle: the converted file decodes (independent decoder) to one message per bag message in order with the right times/bytes/channel/schema; invalid input gives an error, never a crash/exit",
+    # ---------------- ROS 2 schema assembly (getSchemas) on generated ament trees: model vs implementation, and for
+    # well-formed trees an independent expectation; malformed definition files, index files and type names must give errors
+    import gen_schemas
+    scs = gen_schemas.cases(seed * 1000 + 18, 150 if tier == "quick" else 1500, 350 if tier == "quick" else 4000)
+    sgo, sculp = cm.run_isolated(impl, "schemas", [(c["id"], c["lines"]) for c in scs], wd, "c18sgo", timeout=60, mem_bytes=8 << 30)
+    smo, smcr = cm.run_sharded(os.path.join(cm.BUILD, "model"), "schemas", [(c["id"], c["lines"]) for c in scs], wd, "c18smodel")
+    for cmd, rc, err in smcr:
+        rep.add_violation("executor-crash", "%s exited %s: %s" % (cmd, rc, err), [], failing_input=False)
+    st["schema_trees"] = len(scs)
+    st["schema_outcomes"] = {}
+    for c in scs:
+        rp = ["# mode schemas", "case " + c["id"]] + c["lines"] + ["end"]
+        g, m = sgo.get(c["id"]), smo.get(c["id"])
+        if c["id"] in sculp:
+            rep.add_violation("oracle", "case %s: schema assembly killed the process: %s" % (c["id"], sculp[c["id"]]), rp)
+            continue
+        if g is None or m is None:
+            rep.add_violation("missing-output", "case %s: no output (impl %s, model %s)" % (c["id"], g is not None, m is not None), rp, failing_input=False)
+            continue
+        res = next((l for l in g if l.startswith("schemas ")), "schemas ?")
+        st["schema_outcomes"][res] = st["schema_outcomes"].get(res, 0) + 1
+        probs = []
+        if res == "schemas panic":
+            probs.append("schema assembly crashed (panic) on a malformed definition tree instead of returning an error")
+        elif c["expected"] is not None:
+            got = {cm.unhx(l.split(" ")[1]): cm.unhx(l.split(" ")[2]) if len(l.split(" ")) > 2 else b"" for l in g if l.startswith("schema ")}
+            if res != "schemas ok":
+                probs.append("schema assembly failed on a complete, well-formed definition tree (%s)" % res)
+            elif got != c["expected"]:
+                bad = sorted(k for k in c["expected"] if got.get(k) != c["expected"][k])
+                probs.append("assembled schema of %s differs from the concatenation of its definition files (breadth-first, first occurrence, separator and MSG: headers)" % (bad[0] if bad else "?"))
+        for p in probs:
+            rep.add_violation("oracle", "case %s: %s" % (c["id"], p), rp)
+        if g != m:
+            nd += 1
+            rep.add_violation("correspondence", "case %s: schema assembly: impl %s, model %s" % (c["id"], res, next((l for l in m if l.startswith("schemas ")), "?")), rp, failing_input=bool(probs))
+    cov = summarize(rep, len(cases) + len(dbcases) + len(scs), len(set(c["bag"] for c in cases)) + len(dbcases),
+                    "generated ament trees (1-2 search directories, several packages, nested and mutually recursive definitions, arrays/bounds/comments/odd white space; hostile field types, type names, index files, directories in place of files and the reverse) through the schema assembly of the db3 converter, compared with the Ros2Schema model and, for complete trees, with an independent expectation; malformed input must be an error. generated SQLite databases (with/without the QoS column, equal timestamps, topics without messages, non-message topic types with messages) converted with DB3ToMCAP against a generated ament index; rows as the engine returns them and the assembled schemas are logged and fed to the db3+writer model; schema assembly compared with an independent implementation. generated ROS 1 bags (1-5 connections incl. ids 0 and 65535, repeated connection records, shared and distinct types/md5, empty and 300-byte messages, times up to 2^32-1 s, chunks none/lz4/bz2 or unchunked records) converted under random MCAP writer options; corruptions of valid bags (bad/short magic, truncation, hostile header and field lengths, byte noise) and hand-made hostile records, each conversion in an isolated child; output bytes compared with the bag+writer model; oracle: the converted file decodes (independent decoder) to one message per bag message in order with the right times/bytes/channel/schema; invalid input gives an error, never a crash/exit",
                     [[c["bag"][:200].hex()] for c in cases[:2]], dict(st, disagreements=nd, corrupted=ncor))
-    return cov, ["lz4/bz2 bag chunk decoders are oracles", "db3: SQLite engine and file system are inputs of the model (partial)"]
+    return cov, ["lz4/bz2 bag chunk decoders are oracles", "db3: the SQLite engine is an input of the model (row lists); the file system is modelled as a finite tree (os.ReadFile: content / not-exist / other error)"]
 
 
 # ------------------------------------------------------------------ C17: conformance matrix
